@@ -33,7 +33,7 @@ KEYS = st.one_of(
     st.sampled_from(['', 'k', 'K', 'k ', 'a/b', '\x00', 'ключ', '\U0001F600', 'x' * 300, '{"key": 1}', 'k\n']),
     st.text(alphabet=st.characters(blacklist_categories=('Cs',)), max_size=8),
 )
-SUBNAMES = ['s', 't', 'a/b', '0a1b2', 'k']
+SUBNAMES = ['s', 't', 'a/b', '0a1b2', 'k', 'c/b', 'a/k', 's/t']
 GARBAGE = [b'\x00\x00\x00', b'{"key":', b'\xff\xfe\xfd', b'not a cache file', b'\x93NUMPY\x01\x00', b'\x80\x04\x95',
            b'[1, 2', b'{}', b'1', b'null']
 CTYPES = ['json', 'json_nonones', 'numpy', 'frame', 'memory']
